@@ -79,9 +79,13 @@ class Recorder:
                     f.write(json.dumps({"ev": "res", "h": self.h, "id": op["id"], "now": op["now"], "argv": [], "reply": op["reply"], "answered": True}) + "\n")
 
 
-def client_loop(cl, rec, cid, nops, rnd, stop, stats):
+def client_loop(cl, rec, cid, nops, rnd, stop, stats, pinned=None, barrier=None):
+    """pinned: the client keeps ONE connection to that node for all its commands (so that every node serves the same
+    number of proposals at the same moments: ids or sequence numbers that are only unique per node then collide)."""
     conn, node = None, None
     unanswered = 0
+    if barrier is not None:
+        barrier.wait()
     for i in range(nops):
         if stop.is_set() or unanswered >= 2:
             break
@@ -90,7 +94,7 @@ def client_loop(cl, rec, cid, nops, rnd, stop, stats):
             if not alive:
                 time.sleep(0.2)
                 continue
-            node = rnd.choice(alive)
+            node = pinned if (pinned is not None and pinned.alive()) else rnd.choice(alive)
             try:
                 conn = node.client(timeout=4.0)
             except Exception:
@@ -114,7 +118,7 @@ def client_loop(cl, rec, cid, nops, rnd, stop, stats):
             except Exception:
                 pass
             conn = None
-        if rnd.random() < 0.3:
+        if pinned is None and rnd.random() < 0.3:
             try:
                 conn.close()
             except Exception:
@@ -125,7 +129,7 @@ def client_loop(cl, rec, cid, nops, rnd, stop, stats):
 def scenario(args):
     name, n, faults, nclients, nops, idx = args
     rnd = random.Random(seed * 1000 + idx)
-    cl = cluster.Cluster(n, trace=False).start_all()
+    cl = cluster.Cluster(n, trace=name.startswith("pinned")).start_all()
     rec = Recorder(idx)
     stats = {"answered": 0, "unanswered": 0, "faults": []}
     killed_by_us = set()
@@ -135,7 +139,20 @@ def scenario(args):
             result["inconclusive"] = "cluster did not start serving"
             return result
         stop = threading.Event()
-        threads = [threading.Thread(target=client_loop, args=(cl, rec, c, nops, random.Random(rnd.random()), stop, stats)) for c in range(nclients)]
+        if name.startswith("pinned"):
+            # align the number of proposals every node has accepted so far (hook trace), so that identifiers or counters
+            # that are only unique per node collide across nodes when the pinned clients advance together
+            counts = {nd.id: sum(1 for e in cl.events(nd) if e.get("ev") == "propose") for nd in cl.nodes[:n]}
+            top = max(counts.values())
+            for nd in cl.nodes[:n]:
+                c = nd.client(timeout=5.0)
+                for _ in range(top - counts[nd.id]):
+                    c.cmd("PING")
+                c.close()
+            bar = threading.Barrier(n)
+            threads = [threading.Thread(target=client_loop, args=(cl, rec, c, nops, random.Random(rnd.random()), stop, stats, cl.nodes[c], bar)) for c in range(n)]
+        else:
+            threads = [threading.Thread(target=client_loop, args=(cl, rec, c, nops, random.Random(rnd.random()), stop, stats)) for c in range(nclients)]
         for t in threads:
             t.start()
         for f in faults:
@@ -164,9 +181,23 @@ def scenario(args):
                                              {"scenario": name, "faults": stats["faults"], "log": cl.tail(nd, 2500)},
                                              "node %d died (not killed by the schedule at that moment) in scenario %s: %s" % (nd.id, name, cl.tail(nd, 300))))
                 cl.start_node(nd)
-        if cl.wait_serving(timeout=60) is None:
-            result["inconclusive"] = "cluster did not serve again after the faults"
+        path = os.path.join(d, "hist-%d.ndjson" % idx)
+
+        def wedged(why):
+            # without any injected fault a cluster that stops serving was brought down by client load alone: a violation of
+            # "concurrent client load never brings a node down"; after faults it is only counted as inconclusive.
+            # Either way the history recorded so far is still checked.
+            rec.write(path)
+            result["path"] = path
+            if not faults:
+                result["violations"].append(({"branch": "cluster.load", "kind": "unavailable-after-load", "detail": name},
+                                             {"scenario": name, "why": why, "stats": dict(stats), "logs": {nd.id: cl.tail(nd, 800) for nd in cl.nodes[:n]}},
+                                             "scenario %s (no faults injected): %s - %d commands answered, %d never answered" % (name, why, stats["answered"], stats["unanswered"])))
+            else:
+                result["inconclusive"] = why
             return result
+        if cl.wait_serving(timeout=60) is None:
+            return wedged("the cluster does not serve any more after the client load")
         # read every key back through every node (sequential operations at the end of the history)
         for nd in cl.nodes[:n]:
             c = nd.client(timeout=6.0)
@@ -175,10 +206,8 @@ def scenario(args):
                 try:
                     rec.done(op, conv(c.cmd(*argv, timeout=6.0)))
                 except Exception:
-                    result["inconclusive"] = "read-back through node %d got no reply" % nd.id
-                    return result
+                    return wedged("read-back of %s through node %d got no reply" % (" ".join(argv), nd.id))
             c.close()
-        path = os.path.join(d, "hist-%d.ndjson" % idx)
         rec.write(path)
         result["path"] = path
         return result
@@ -187,9 +216,11 @@ def scenario(args):
 
 
 if tier == "quick":
-    plan = [("steady", 3, [], 6, 20), ("follower-or-leader-kill", 3, ["kill-restart"], 5, 25), ("pause", 3, ["pause"], 5, 20)]
+    plan = [("steady", 3, [], 6, 20), ("follower-or-leader-kill", 3, ["kill-restart"], 5, 25), ("pause", 3, ["pause"], 5, 20),
+            ("pinned-one-client-per-node", 3, [], 3, 40)]
 else:
-    plan = [("steady", 3, [], 8, 30), ("steady-5", 5, [], 8, 25)] + [("kill-restart", 3, ["kill-restart"], 5, 30)] * 4 + \
+    plan = [("steady", 3, [], 8, 30), ("steady-5", 5, [], 8, 25), ("pinned-one-client-per-node", 3, [], 3, 60), ("pinned-5", 5, [], 5, 40),
+            ("pinned-then-kill", 3, ["kill-restart"], 3, 60)] + [("kill-restart", 3, ["kill-restart"], 5, 30)] * 4 + \
            [("two-kills", 3, ["kill-restart", "kill-restart"], 5, 35)] * 3 + [("pause", 3, ["pause"], 5, 25)] * 2 + \
            [("kill-5", 5, ["kill-restart", "pause", "kill-restart"], 6, 30)] * 2
 jobs = [(name, n, faults, nc, nops, i + 1) for i, (name, n, faults, nc, nops) in enumerate(plan)]
@@ -203,8 +234,8 @@ for r in results:
         v.report(sig, replay, what=what)
     if r["inconclusive"]:
         skipped += 1
-        print("NOTE: scenario %s inconclusive (%s) - skipped" % (r["name"], r["inconclusive"]))
-    elif r["path"]:
+        print("NOTE: scenario %s inconclusive (%s) - read-back skipped" % (r["name"], r["inconclusive"]))
+    if r["path"]:
         hist_paths.append((r["name"], r["path"]))
 cov["skipped_inconclusive"] = skipped
 with concurrent.futures.ThreadPoolExecutor(max_workers=4) as ex:
